@@ -43,6 +43,7 @@ func (ex *Exec) allowedMods(st *State, fr *Frame) []modLoc {
 	}
 	var out []modLoc
 	env := ex.funcEnv(st, fr)
+	env.lets = sp.Lets
 	for _, m := range sp.Modifies {
 		out = append(out, ex.lvalueLocs(env, m.Expr)...)
 	}
@@ -584,6 +585,7 @@ func (ex *Exec) checkPost(st *State, fr *Frame, res Value) {
 		return
 	}
 	env := ex.funcEnv(st, fr)
+	env.lets = sp.Lets
 	env.old = fr.EntryFull
 	env.bindResults(fr.Fn.Signature, res)
 	pos := fr.Fn.Pos()
@@ -677,6 +679,7 @@ func (ex *Exec) VerifyFunc(sp *FuncSpec) {
 	fr.Spec = sp
 	fr.EntryFull = st.snapshotFull()
 	env := ex.funcEnv(st, fr)
+	env.lets = sp.Lets
 	env.assumeLocks = true
 	for _, c := range sp.Requires {
 		st.assume(ex.evalBool(env, c.Expr))
